@@ -375,7 +375,7 @@ def run_histories(rec, tier, seed_value, shard, nshards, handle):
     from hypothesis import HealthCheck, Verbosity, seed, settings
     from hypothesis.stateful import RuleBasedStateMachine, initialize, rule, run_state_machine_as_test
 
-    total = {"quick": 320, "thorough": 6000}[tier]
+    total = {"quick": 960, "thorough": 12000}[tier]
     n = max(1, -(-total // nshards))
     last = {}
 
@@ -677,7 +677,7 @@ def roundtrip_cases(draw):
 
 SUBS = [
     Sub("histories", kind="custom", run=run_histories, body=body_history,
-        budget={"quick": 320, "thorough": 6000}, desc="rule-based state machine over rewrite / delete / age / auto_load with a harness-owned clock"),
+        budget={"quick": 960, "thorough": 12000}, desc="rule-based state machine over rewrite / delete / age / hold / load with a harness-owned clock; symlinked FASTA and a daylight-saving fold in some histories"),
     Sub("crash", kind="hyp", strategy=crash_cases, body=body_crash, shrink=True,
         budget={"quick": 160, "thorough": 3000}, desc="every crash point of an indexing run x initial cache states x flush sizes, then a fresh load"),
     Sub("interleave", kind="hyp", strategy=interleave_cases, body=body_interleave,
